@@ -73,6 +73,12 @@ def run(ctx):
             for j in range(d): v = [v, 'x'] if j % 2 else {'k': v, 'e': []}
             i = len(cases)
             cases.append(mkcase('V%d' % i, lib.new_cfg(json_opts=(st, False)), json.dumps(v).encode())); exp['V%d' % i] = [expected(conv(v))]
+    # long collections (one element or member per line however many there are)
+    for ln in (16, 17, 32, 33, 48, 64, 100, 257):
+        for st in ('pretty', 'oneline', 'consise'):
+            for v in ([j for j in range(ln)], {'k%d' % j: [j] for j in range(ln)}, [[j, 'x'] for j in range(ln)], ['s%d' % j for j in range(ln)]):
+                i = len(cases)
+                cases.append(mkcase('V%d' % i, lib.new_cfg(json_opts=(st, False)), json.dumps(v).encode())); exp['V%d' % i] = [expected(conv(v))]
     impl, model, mism = common.correspond(cases)
     # second pass: feed the output back with the same options
     second = []
@@ -112,8 +118,9 @@ def run(ctx):
                 body = ln.lstrip(b' '); ind = len(ln) - len(body)
                 d_here = depth - (1 if body[:1] in (b']', b'}') else 0)
                 if ind != 2 * d_here: bad = (ln[:60], ind, 2 * d_here); break
+                if b',' in body.rstrip()[:-1]: bad = (ln[:60], -1, 'one element or member per line'); break
                 depth += sum(1 for ch in body if ch in b'[{') - sum(1 for ch in body if ch in b']}')
-            if bad: violations.append(viol(c, 'pretty style: nesting-proportional indentation (two blanks per level)', 'line %r is indented by %d' % (bad[0], bad[1]), '%d' % bad[2]))
+            if bad: violations.append(viol(c, 'pretty style: one element or member per line, nesting-proportional indentation (two blanks per level)', 'line %r is indented by %d' % (bad[0], bad[1]), '%s' % bad[2]))
         b = impl2.get('W' + c['id'])
         if b is not None and (b['result'] != 'ok' or b['stdout'] != a['stdout']):
             violations.append(viol(c, 'feeding the output back with the same options reproduces it byte for byte', repr(b['stdout'][:300]), repr(a['stdout'][:300])))
